@@ -1064,19 +1064,11 @@ def check_histories(ctx, cases):
                       ["read:" + o["what"] for o in case["ops"] if o["op"] == "read"] +
                       [K.flag_tag(o["flags"]) for o in case["ops"] if o["op"] == "queryF"] +
                       ["answer:" + (a.get("error") or "ok") for a in answers])
-        aliased = False
+        # update_component() used to keep the nested objects of the caller's dictionary; repaired in /repo 769ab6f
+        # (fixes/C08-update-component-copies.diff).  Histories that share template dictionaries between
+        # update_component calls are ordinary cases now: any divergence is an oracle failure.
         for what, detail in failures:
-            if case.get("share") == "update" and what in ALIAS_SLUGS and classify_update_alias(UPDATE_ALIAS, case, detail):
-                # update_component() keeps the nested objects of the caller's dictionary (a finding of its own,
-                # fixes/C08-update-component-copies.diff): reported once it is registered, tagged until then
-                aliased = True
-                ctx.tag("finding:" + UPDATE_ALIAS)
-                if update_alias_registered():
-                    ctx.fail(UPDATE_ALIAS, case, dict(detail, observed=what))
-                continue
             ctx.fail(what, case, detail)
-        if aliased:
-            continue        # the pure model has value semantics: not comparable once objects are shared
         if mo is not None:
             manswers = [coarse(a) for a in mo["answers"]]
             answers = [coarse(a) for a in answers]
